@@ -991,7 +991,7 @@ class ClsWorld(CoreWorld):
         from pyvc.world import ModuleV
 
         self.set_global("core", "inspect", ModuleV("inspect", {"isfunction": Builtin("isfunction", lambda I, x: isinstance(x, Tok) and x.label.startswith("fn:"))}))
-        self.set_global("core", "dir", Builtin("dir", lambda I, b: sorted(set(b.attrs) | set(b.inherited)) if isinstance(b, BaseCls) else []))
+        self.set_global("core", "dir", Builtin("dir", lambda I, b: sorted(set(b.attrs) | set(b.inherited) | set(dir(object))) if isinstance(b, BaseCls) else sorted(dir(object)) if getattr(b, "name", None) == "object" or b is object else []))
         self.set_global("core", "vars", Builtin("vars", lambda I, b: dict(b.attrs) if isinstance(b, BaseCls) else {}))
 
         self.namespace = None  # the class body's namespace while a decorator of the body runs
@@ -1000,7 +1000,7 @@ class ClsWorld(CoreWorld):
             """_find_overload (trusted: walks the interpreter stack): the function bound to fn.__name__ in the namespace of the
             enclosing body, or a new Ovld"""
             ns = self.namespace
-            cur = ns.d.get("perform") if ns is not None else None
+            cur = ns.d.get(ATTR[0]) if ns is not None else None
             if cur is None:
                 return self.new_ovld(I, **kwargs)
             if kwargs:
@@ -1025,6 +1025,9 @@ class ClsWorld(CoreWorld):
         return super().super_of(I, obj, qual)
 
 
+ATTR = ["perform"]  # the method name of the class-body scenarios (a scenario ending in _dunder uses a special method name)
+
+
 def method_set(o):
     """The user methods an Ovld dispatches over, by identity, in table order (DESIGN A.3)."""
     return [f for _, f in spec_defns(o).items()]
@@ -1032,9 +1035,9 @@ def method_set(o):
 
 def _class_with(w, I, label, fns):
     """An existing class whose attribute `perform` is an overloaded method over fns (made by the real constructor)."""
-    o = mk_ovld(w, f"{label}.perform", [], False, compiled=False, locked=False, defns={f.attrs["sig"]: f for f in fns}, I=I)
-    o.f["dispatch"] = w.bootstrap(I, o, "perform")
-    return BaseCls(f"class:{label}", perform=o.f["dispatch"]), o
+    o = mk_ovld(w, f"{label}.{ATTR[0]}", [], False, compiled=False, locked=False, defns={f.attrs["sig"]: f for f in fns}, I=I)
+    o.f["dispatch"] = w.bootstrap(I, o, ATTR[0])
+    return BaseCls(f"class:{label}", **{ATTR[0]: o.f["dispatch"]}), o
 
 
 def t_cls_body(scenario):
@@ -1058,6 +1061,7 @@ def t_cls_body(scenario):
 
         def thunk(I):
             w.reset()
+            ATTR[0] = "__eq__" if scenario.endswith("_dunder") else "perform"
             s = {n: SigTok(n) for n in ("b1", "b2", "c1", "s1", "s2")}
             fn = {n: user_fn(n, s[n]) for n in s}
             for f_ in fn.values():
@@ -1073,9 +1077,9 @@ def t_cls_body(scenario):
                 B1, o1 = _class_with(w, I, "B1", [fn["b1"]])
                 B2, o2 = _class_with(w, I, "B2", [fn["c1"]])
                 o2.f["dispatch"].attrs["_extend_super"] = True
-                B3 = BaseCls("class:B3", perform=fn["b2"])  # a plain (not overloaded) definition in the third base
+                B3 = BaseCls("class:B3", **{ATTR[0]: fn["b2"]})  # a plain (not overloaded) definition in the third base
                 bases, base_ovlds = [B1, B2, B3], [o1, o2]
-            elif scenario in ("extend_two", "prepare_two", "prepare_deep"):
+            elif scenario in ("extend_two", "prepare_two", "prepare_deep", "prepare_two_dunder"):
                 B1, o1 = _class_with(w, I, "B1", [fn["b1"]])
                 B2, o2 = _class_with(w, I, "B2", [fn["c1"]])
                 if scenario.startswith("prepare"):
@@ -1098,34 +1102,34 @@ def t_cls_body(scenario):
             else:
                 d = ClsDictObj(tuple(bases))
                 if scenario == "same_name":
-                    d.py_setitem(I, "perform", fn["s1"])
-                    d.py_setitem(I, "perform", fn["s2"])
+                    d.py_setitem(I, ATTR[0], fn["s1"])
+                    d.py_setitem(I, ATTR[0], fn["s2"])
                     want = [fn["s1"], fn["s2"]]
                 elif scenario == "shadow":
-                    d.py_setitem(I, "perform", fn["s1"])
+                    d.py_setitem(I, ATTR[0], fn["s1"])
                     want = None
                 elif scenario in ("decorated_later", "decorated_later_extend"):
                     # @ovld def perform(s1) / @ovld(priority=10) def perform(s2): the second decorator finds the function already
                     # bound to the name, registers on it and hands its user-facing function back to the namespace
                     w.namespace = d
                     first = I.call_repo("core:ovld", [fn["s1"]], {}) if scenario == "decorated_later" else I.call_repo("core:extend_super", [fn["s1"]], {})
-                    d.py_setitem(I, "perform", first)
+                    d.py_setitem(I, ATTR[0], first)
                     second = I.call_repo("core:ovld", [fn["s2"]], {"priority": 10})
-                    d.py_setitem(I, "perform", second)
+                    d.py_setitem(I, ATTR[0], second)
                     w.namespace = None
                     want = ([fn["b1"], fn["b2"]] if scenario == "decorated_later_extend" else []) + [fn["s1"], fn["s2"]]
                 else:
                     marked = I.call_repo("core:extend_super", [fn["s1"]], {})
-                    d.py_setitem(I, "perform", marked)
+                    d.py_setitem(I, ATTR[0], marked)
                     if scenario == "extend_one":
-                        d.py_setitem(I, "perform", fn["s2"])
+                        d.py_setitem(I, ATTR[0], fn["s2"])
                         want = [fn["b1"], fn["b2"], fn["s1"], fn["s2"]]
                     elif scenario == "extend_twice":
-                        d.py_setitem(I, "perform", I.call_repo("core:extend_super", [fn["s2"]], {}))
+                        d.py_setitem(I, ATTR[0], I.call_repo("core:extend_super", [fn["s2"]], {}))
                         want = [fn["b1"], fn["b2"], fn["s1"], fn["s2"]]
                     else:
                         want = [fn["b1"], fn["c1"], fn["s1"]]
-            got = d.d.get("perform")
+            got = d.d.get(ATTR[0])
             if want is None:
                 I.require(got is fn["s1"], "plain_definition_without_extend_super_is_stored_as_is")
             else:
@@ -1146,7 +1150,7 @@ def t_cls_body(scenario):
         return w, thunk, {"scenario": scenario}
 
     return build
-CLS_SCENARIOS = ("same_name", "extend_one", "extend_twice", "extend_two", "shadow", "prepare_two", "prepare_deep", "prepare_three", "decorated_later", "decorated_later_extend")
+CLS_SCENARIOS = ("same_name", "extend_one", "extend_twice", "extend_two", "shadow", "prepare_two", "prepare_deep", "prepare_three", "decorated_later", "decorated_later_extend", "prepare_two_dunder")
 
 
 def t_copy_variant(gname, op, linkback):
